@@ -369,8 +369,9 @@ class SuperSpeedStreamInEndpoint(Elaboratable):
             # received it correctly. We'll wait to see if the host ACKs.
             with m.State("WAIT_FOR_ACK"):
 
-                # We're done transmitting data.
-                m.d.ss   += out_stream.valid.eq(0)
+                # We're done transmitting data; once our transmitter has taken our final word.
+                with m.If(out_stream.ready):
+                    m.d.ss   += out_stream.valid.eq(0)
 
                 # Reset our send-position for the next data packet.
                 m.d.ss   += send_position   .eq(0)
